@@ -238,3 +238,66 @@ def register(ex):
     P("improvePdpCheckPrecCmp", "Cmp", ".lt", "pdp/env.py:PDPRuinRepairEnv.check_solution_validity  `visited_time[pickups] < visited_time[deliveries]`", pdp_prec_cmp)
     P("improvePdpCheckVt", "Nat × Nat", "(1, 0)", "pdp/env.py:PDPRuinRepairEnv.check_solution_validity  `for i in range(graph_size): visited_time[…] = i + 1`",
       vt_walk(PDP, "PDPRuinRepairEnv.check_solution_validity"))
+
+
+# ---- action decoding of the bundled improvement policies ---------------------------------------------------
+_register_env = register
+
+
+def register(ex):  # noqa: F811  (extends the registration above)
+    _register_env(ex)
+    norm = ex.norm
+    DACT = "rl4co/models/zoo/dact/policy.py"
+    N2S = "rl4co/models/zoo/n2s/policy.py"
+
+    def fn_of(rel, qual):
+        tree = ex.parse(rel)
+        return ex.find_function(tree, qual) if tree else None
+
+    def cat_order(rel, qual, target, src):
+        """`<target> = torch.cat((…, src // seq_length, src % seq_length), -1)`: true = (//, %) in this order"""
+        def run():
+            fn = fn_of(rel, qual)
+            if fn is None:
+                return None
+            for n in ast.walk(fn):
+                if isinstance(n, ast.Assign) and len(n.targets) == 1 and norm(n.targets[0]) == target \
+                        and isinstance(n.value, ast.Call) and norm(n.value.func) == "torch.cat" and n.value.args \
+                        and isinstance(n.value.args[0], ast.Tuple):
+                    kinds = []
+                    for e in n.value.args[0].elts:
+                        if isinstance(e, ast.BinOp) and norm(e.left) == src and norm(e.right) == "seq_length":
+                            if isinstance(e.op, ast.FloorDiv):
+                                kinds.append("div")
+                            elif isinstance(e.op, ast.Mod):
+                                kinds.append("mod")
+                    if kinds == ["div", "mod"]:
+                        return "true"
+                    if kinds == ["mod", "div"]:
+                        return "false"
+                    return None
+            return None
+        return run
+
+    def n2s_mask_offset():
+        fn = fn_of(N2S, "N2SPolicy.forward")
+        if fn is None:
+            return None
+        hits = []
+        for n in ast.walk(fn):
+            if isinstance(n, ast.Call) and norm(n.func) == "env.get_mask" and len(n.args) == 2:
+                a = n.args[0]
+                if isinstance(a, ast.BinOp) and isinstance(a.op, ast.Add) and norm(a.left) == "action_removal" \
+                        and isinstance(a.right, ast.Constant) and isinstance(a.right.value, int) and a.right.value >= 0:
+                    hits.append(a.right.value)
+                elif norm(a) == "action_removal":
+                    hits.append(0)
+        return str(hits[0]) if len(hits) == 1 else None
+
+    ex.probe("improveDactDecodeDivFirst", "Bool", "true",
+             "dact/policy.py:forward  `DACT_action = cat((action_sampled // seq_length, action_sampled % seq_length))`",
+             cat_order(DACT, "DACTPolicy.forward", "DACT_action", "action_sampled"))
+    ex.probe("improveN2sDecodeDivFirst", "Bool", "true",
+             "n2s/policy.py:forward  `N2S_action = cat((removal, action_reinsertion // seq_length, action_reinsertion % seq_length))`",
+             cat_order(N2S, "N2SPolicy.forward", "N2S_action", "action_reinsertion"))
+    ex.probe("improveN2sMaskPairOffset", "Nat", "1", "n2s/policy.py:forward  `env.get_mask(action_removal + 1, td)`", n2s_mask_offset)
